@@ -86,8 +86,9 @@ def db_lines(dbm):
     for i, m in enumerate(dbm):
         if i == reopen:
             lines += ["[tcp:request]", "label = s:unix:X:y", "[mtu]"]
-        lines.append("label = L%d" % i)
-        lines.append("sig = %d" % m)
+        ind = ["", "", " ", "\t", "    "][(m + i) % 5]          # parameter lines may be indented
+        lines.append(ind + "label = L%d" % i)
+        lines.append(ind + "sig = %d" % m)
         recs.append((len(lines), m))
     return lines, recs
 
@@ -239,6 +240,20 @@ def impl_init():
             out["refp"] = fp(res, refdb)
         except Exception as e:  # building may fail for an out-of-range MSS
             out["refp"] = {"exc": type(e).__name__}
+        if c["mode"] != "sniffed" and c["m"] % 3 == 0:
+            # two packets of the caller that were given the SAME option list object: impersonating one of them must not reach the other
+            # (nor the caller's list)
+            shared = [("MSS", 1460), ("NOP", None), ("WScale", 7)]
+            first = IP() / TCP(flags="S", seq=1)
+            second = IP() / TCP(flags="S", seq=2)
+            first.getlayer("TCP").options = shared
+            second.getlayer("TCP").options = shared
+            try:
+                impersonate_mtu(second, raw_signature=str(c["m"]))
+            except Exception:
+                pass
+            if canon(first.getlayer("TCP").options) != canon([("MSS", 1460), ("NOP", None), ("WScale", 7)]) or shared != [("MSS", 1460), ("NOP", None), ("WScale", 7)]:
+                out["sibling_changed"] = [canon(first.getlayer("TCP").options), [list(x) for x in shared]]
         return out
     return impl
 
@@ -288,6 +303,9 @@ def judge(c, ir, mr):
                     "no_failing_input": True}
         return {"kind": "impersonate_mtu did not replace MSS in place / keep the other options", "why": "before %s after %s model %s" % (ir["before"], ir["after"], want),
                 "judged_by": "C08_untouched"}
+    if ir.get("sibling_changed"):
+        return {"kind": "impersonate_mtu on one packet changed another packet (or the caller's own option list) that shares the list object", "why": str(ir["sibling_changed"])[:300],
+                "judged_by": "C08_untouched (the rewritten list is a new list)"}
     if ir["fields_before"] != ir["fields_after"]:
         return {"kind": "impersonate_mtu changed a header field other than the TCP options", "why": "%s -> %s" % (ir["fields_before"], ir["fields_after"])}
     g = ir.get("gate")
